@@ -215,8 +215,8 @@ func c08(c *ctx) {
 		for i := 0; i < 12; i++ {
 			name := "W" + strings.Repeat("a", i)
 			var kids []*gram.Expr
-			for k := 0; k < 150; k++ {
-				kids = append(kids, gram.Lit(string(rune(0x4E00+(i*150+k)%2000))))
+			for k := 0; k < 260; k++ {
+				kids = append(kids, gram.Lit(string(rune(0x4E00+(i*260+k)%3000))))
 			}
 			g.Rules = append(g.Rules, &gram.Rule{Name: name, E: gram.Seq(kids...)})
 			top = append(top, gram.Ref(name))
